@@ -3,6 +3,7 @@ package core
 import (
 	"errors"
 	"fmt"
+	"sort"
 
 	jschemaLib "github.com/jsightapi/jsight-schema-go-library"
 	jerrors "github.com/jsightapi/jsight-schema-go-library/errors"
@@ -60,8 +61,34 @@ func (core *JApiCore) buildUserTypes() *jerr.JApiError {
 		}
 	})
 
+	// Every type gets the rules before any type is compiled: compiling a type
+	// loads the types it uses, and a loaded schema accepts no more rules.
+	if je := core.addRulesToUserTypes(); je != nil {
+		return je
+	}
+
 	err := core.userTypes.Each(func(n string, _ jschemaLib.Schema) error {
 		return core.compileUserTypeWithAllDependencies(n)
+	})
+	return adoptError(err)
+}
+
+func (core *JApiCore) addRulesToUserTypes() *jerr.JApiError {
+	// In sorted order, so a diagnostic does not depend on map iteration order.
+	names := make([]string, 0, len(core.rules))
+	for n := range core.rules {
+		names = append(names, n)
+	}
+	sort.Strings(names)
+
+	dd := core.catalog.GetRawUserTypes()
+	err := core.userTypes.Each(func(typeName string, ut jschemaLib.Schema) error {
+		for _, n := range names {
+			if err := ut.AddRule(n, core.rules[n]); err != nil {
+				return jschemaToJAPIError(err, dd.GetValue(typeName))
+			}
+		}
+		return nil
 	})
 	return adoptError(err)
 }
@@ -91,13 +118,6 @@ func (core *JApiCore) compileUserTypeWithAllDependencies(name string) error {
 	}
 
 	dd := core.catalog.GetRawUserTypes()
-
-	// Add rules before we try to do something with the type.
-	for n, r := range core.rules {
-		if err := currUT.AddRule(n, r); err != nil {
-			return jschemaToJAPIError(err, dd.GetValue(n))
-		}
-	}
 
 	tt, err := fetchUsedUserTypes(currUT, core.userTypes)
 	if err != nil {
